@@ -29,7 +29,9 @@ R2  matching lengths: latitude / longitude cells are the intersection's own
     all repeated by the number of cells per segment (shared with C04-R3); the
     four arrays of the horizontal intersection are received under names of the
     same axis and kind through whatever container carries them (nested tuples,
-    records read by position or field).
+    records read by position or field); a component that is read in place
+    (`cells.lat_indices[mask]`) has no receiving name and is decided on values
+    by the first clause.
 R3  part agreement by provenance (T-ROLE, c04.rule_suffix): what the
     antimeridian driver returns is closed over the two split calls and the two
     share computations, everything in between opened.  Every array a share
@@ -68,15 +70,21 @@ R6  mirror symmetry on state values: each latitude-side array the horizontal
     mirror images by nature); skip guards (`if …: continue`, a filtered
     iteration, a write under an `if` on one side) are not compared.  A
     coordinate / axis / per-axis array / loop variable / numeric constant /
-    slice that is not the mirror image, a different number of in-place steps,
-    or a different rational expression of the same quantities is a violation;
-    sides written with other functions or shapes are exit 2.
+    slice that is not the mirror image, a different number of in-place steps
+    (also none at all on one side), or a different rational expression of the
+    same quantities is a violation; sides written with other functions or
+    shapes are exit 2.  A value computed element-wise from BOTH coordinates
+    (the crossing coordinate solved from the line equation, wherever it is
+    written: in the fill loops or as one vectorised expression) has no mirror
+    image and is left to R11.
 R7  every guarded division (np.divide(where=) or np.where with the quotient in
     either arm) is guarded exactly on its denominator: the mask, wherever it is
     built, closes to `denominator != 0` or has the same truth table on every
     kind of element (c04.guard_verdict); a tolerance / one-sided test / extra
     test of the numerator (unless the default is zero, where it changes
-    nothing) / looser mask is reported.
+    nothing) / looser mask is reported.  A division guarded on the FINITENESS
+    of its denominator (the slope of a constant-latitude segment) is another
+    kind of guard: R11.
 R8  look-up provenance: the four index helpers return, and the intersection's
     cell-index arrays are built as [start cell | midpoint cells | end cell] from,
     `np.searchsorted(<grid's own axis of that role>, coordinates) − 1` on the
@@ -97,6 +105,29 @@ R10 crossing index: the crossing flags are signed (+1 westward, −1 eastward).
     flatnonzero / argmax of a `!= 0` / abs test); argmax / argmin of the signed
     array and one-sided tests (`> 0`, `== 1`) are reported; the crossing sign is
     the flag at that same position; whole-array tests test `!= 0`.
+R11 crossing points lie on the segment's straight map line: every block of
+    columns stacked into the latitude-side intersection coordinates is either
+    the latitude grid lines crossed or the latitude at which the line through
+    way-points i, i + 1 meets a crossed longitude line - lat_i + (line − lon_i)
+    · Δlat / Δlon - and the other way round on the longitude side.  Decided by
+    computing one element EXACTLY (rationals, ±inf / NaN as numpy has them) on
+    sample segments, every helper opened - the line parameters included, so a
+    segment of constant latitude has whatever slope / intercept the guarded
+    division of the line parameters leaves (∞, ∓∞ or NaN on the equator) - with
+    the selections that depend on the kind of segment applied (np.isinf(slope)
+    masks, where=, np.where) and the others (rows of one index change, column
+    ranges, NaN padding) left alone.  On a constant-latitude segment the
+    latitude at a crossed longitude line must come out as the way-point
+    latitude: an unguarded (line − intercept) / slope is inf / inf = NaN there
+    (the crossing loses its latitude, lat- and lon-side arrays differ in
+    length).  A wrong sign / array / coordinate in either line equation, a guard
+    on the wrong rows or the wrong array is reported with the sample values.
+
+Before the rules read them, the functions of the gridding module are rewritten
+in place by `split_tuple_locals` (a local bound once to a display and used by
+component only is taken apart into one local per component; a loop over such a
+display of locals is unrolled): the values follow a local that holds an array
+and is altered in place, not a component of a tuple that is.
 """
 
 from __future__ import annotations
@@ -107,9 +138,9 @@ import re
 from ..algebra import AlgebraError, normal_form, poly_equal
 from ..astutil import (call_name, calls_in, const_value, eval_pred, kwarg, names_in, norm, single_def_value, stmt_of, stores_to,
                        walk_no_nested)
-from .c04 import (DIST_FN, HZ_FN, MUT, RES, SPLITS, Pending, SeqView, Undecided, _ix, _mk, _ph, alts, module_calls, as_received, canon,
+from .c04 import (DIST_FN, HZ_FN, MUT, RES, SPLITS, Pending, SeqView, Undecided, Values, _ix, _mk, _ph, alts, module_calls, as_received, canon,
                   closed, describe_count, elem_form, grid_values, guard_verdict, hz_leaf, index_param, is_mask, is_mk, leaf_role,
-                  lookup_verdict, mentions, parse_lookup, pervar_values, pm, pm_any, ret_elts, rule_suffix, run_rules, same,
+                  lookup_verdict, mentions, parse_lookup, pervar_values, plain_value, pm, pm_any, ret_elts, rule_suffix, run_rules, same,
                   share_model, show, show_parts, strip_casts, tcopy)
 
 GRID = 'gridding/grid.py'
@@ -170,8 +201,11 @@ def _produced_leaves(prog, fi, e, at_fn, path=(), depth=0):
 
 
 def _consumed_leaves(fn_node, target, path=(), depth=0):
-    """leaves of the receiving side: [(access path, local name)]; a step is a position (int) or a field name (str).
-    A received name that is only taken apart again (`x = name.field`, `x = name[0]`, `a, b = name`) is followed."""
+    """leaves of the receiving side: [(access path, local name | None)]; a step is a position (int) or a field name (str).
+    A received name that is taken apart again (`x = name.field`, `x = name[0]`, `a, b = name`) is followed; a component
+    that is read in place (`name[0][mask]`, `name.field.sum()`) is a leaf without a receiving name (None): what is done
+    with it is decided on values by the other clauses of R2."""
+    from ..astutil import parent
     if isinstance(target, (ast.Tuple, ast.List)):
         out = []
         for i, t in enumerate(target.elts):
@@ -182,26 +216,35 @@ def _consumed_leaves(fn_node, target, path=(), depth=0):
         return out
     if not isinstance(target, ast.Name) or depth > 6:
         return None
-    out = []
-    seen = set()
-    for t, st, how in stores_to(fn_node):
-        v = getattr(st, 'value', None)
-        if how != 'assign' or v is None or len(st.targets) != 1 or id(st) in seen:
+    out, whole = [], False
+    for x in walk_no_nested(fn_node):
+        if not (isinstance(x, ast.Name) and x.id == target.id and isinstance(x.ctx, ast.Load)):
             continue
-        seen.add(id(st))
-        if isinstance(v, ast.Attribute) and isinstance(v.value, ast.Name) and v.value.id == target.id:
-            sub = _consumed_leaves(fn_node, st.targets[0], path + (v.attr,), depth + 1)
-        elif isinstance(v, ast.Subscript) and isinstance(v.value, ast.Name) and v.value.id == target.id \
-                and isinstance(v.slice, ast.Constant) and isinstance(v.slice.value, int):
-            sub = _consumed_leaves(fn_node, st.targets[0], path + (v.slice.value,), depth + 1)
-        elif isinstance(v, ast.Name) and v.id == target.id and isinstance(st.targets[0], (ast.Tuple, ast.List)):
-            sub = _consumed_leaves(fn_node, st.targets[0], path, depth + 1)
+        p = parent(x)
+        step = None
+        if isinstance(p, ast.Attribute) and p.value is x:
+            step = p.attr
+        elif isinstance(p, ast.Subscript) and p.value is x and isinstance(const_value(p.slice), int) and not isinstance(const_value(p.slice), bool):
+            step = const_value(p.slice)
+        if step is not None:
+            pp = parent(p)
+            if isinstance(pp, ast.Assign) and pp.value is p and len(pp.targets) == 1 and isinstance(pp.targets[0], (ast.Name, ast.Tuple, ast.List)):
+                sub = _consumed_leaves(fn_node, pp.targets[0], path + (step,), depth + 1)
+                if sub is None:
+                    return None
+                out += sub
+            elif (path + (step,), None) not in out:
+                out.append((path + (step,), None))
+        elif isinstance(p, ast.Assign) and p.value is x and len(p.targets) == 1 and isinstance(p.targets[0], (ast.Tuple, ast.List)):
+            sub = _consumed_leaves(fn_node, p.targets[0], path, depth + 1)
+            if sub is None:
+                return None
+            out += sub
         else:
-            continue
-        if sub is None:
-            return None
-        out += sub
-    return out or [(path, target.id)]
+            whole = True
+    if whole or not out:
+        out.append((path, target.id))
+    return out
 
 
 def rule_result_roles(ctx, m, fn):
@@ -226,10 +269,14 @@ def rule_result_roles(ctx, m, fn):
     n = 0
     for path, name in consumed:
         cands = [nm for pp, nm in produced.items() if len(pp) == len(path)
-                 and all(step == (i if isinstance(step, int) else f) for step, (i, f) in zip(path, pp))]
-        if len(cands) != 1:
-            ctx.undecided('C05-R2', fn, f'intersection result → {name}', f'access path {path} does not name one returned array')
+                 and all(step == (i if isinstance(step, int) else f) or (isinstance(step, int) and step < 0) for step, (i, f) in zip(path, pp))]
+        if len(cands) != 1 or any(isinstance(step, int) and step < 0 for step in path):
+            ctx.undecided('C05-R2', fn, f'intersection result → {name or "(read in place)"}', f'access path {path} does not name one returned array')
         n += 1
+        if name is None:
+            ctx.ob('C05-R2', fn, f'intersection result {"".join(f"[{p}]" if isinstance(p, int) else "." + p for p in path)} read in place', True,
+                   f'`{cands[0]}` of the intersection, used without a receiving name (decided on values)', line=unp.lineno, nontrivial=False)
+            continue
         got, want = (axis_of(name), _kind_of(name)), (axis_of(cands[0]), _kind_of(cands[0]))
         ok = got == want and got[0] is not None
         ctx.ob('C05-R2', fn, f'intersection result {"".join(f"[{p}]" if isinstance(p, int) else "." + p for p in path)} → {name}', ok,
@@ -243,17 +290,22 @@ POINT_ROLES = ('lats', 'altitudes', 'times', 'state_variables')
 PI_ATOMS = ('np.pi', 'numpy.pi', 'math.pi', 'pi')
 
 
-def _role_sequences(view, x, at):
+def _role_sequences(view, x, at, role_of=None):
     """(role, base, alternatives) of one returned component: role is the array parameter (or tuple-of-arrays
-    parameter) it is built from"""
+    parameter) it is built from; when the inputs travel in a record (`trajectory[0]`, `part.lats`), `role_of(base)`
+    says which of the driver's own parameters that component is at the call"""
     try:
         alts = view.seq(x, at)
         bases = {p[1] for parts in alts for p in parts if p[0] in ('slice', 'whole')}
         if not alts:
             return None, None, []
-        if len(bases) == 1 and next(iter(bases)) in view.params:
+        if len(bases) == 1:
             b = next(iter(bases))
-            return b, b, alts
+            if b in view.params:
+                return b, b, alts
+            r = role_of(b) if role_of is not None else None
+            if r is not None:
+                return r, b, alts
         raise Undecided(f'`{norm(x)[:60]}` mixes {sorted(bases)}')
     except Undecided as first:
         try:
@@ -265,6 +317,8 @@ def _role_sequences(view, x, at):
             if a[0] == 'empty':
                 continue
             _, src, var, expr, at2, bound = a
+            if src not in view.params and role_of is not None:
+                src = role_of(src) or src
             if role not in (None, src):
                 raise Undecided(f'`{norm(x)[:60]}` is built from {role} and {src}')
             role, base = src, var
@@ -311,10 +365,32 @@ def rule_split_points(ctx, m):
         sp = m.func(qn)
         view = SeqView(sp, ctx.prog)
         n = 0
+        site = []
+
+        def role_of(base, sp=sp, view=view, site=site):
+            """the driver's own parameter that a component of a record parameter of the split function is at the call"""
+            from . import c04 as _c04
+            if not hasattr(_c04, 'CallSite'):
+                return None
+            if not site:
+                gc = m.func(_c04.DRIVER_FN)
+                site.append(_c04.CallSite(ctx, grid_values(ctx), gc, sp, view, *_c04.split_call(ctx, 'C05-R1', gc, sp)))
+            return site[0].received(base)
+
+        def index_params(sp=sp, view=view):
+            """the parameters - and components of record parameters - of the split function that can hold the crossing index"""
+            out = set(sp.params)
+            if hasattr(view, 'record_params'):
+                for x in ast.walk(sp.node):
+                    k = view.component(x, sp.node.body[0]) if isinstance(x, (ast.Subscript, ast.Attribute)) else None
+                    if k is not None:
+                        out.add(k)
+            return out
+
         for ri, r in enumerate(view.returns()):
             tag = f'{part} part, return #{ri + 1}'
             for x, at in ret_elts(view, r):
-                role, base, alts = _role_sequences(view, x, at)
+                role, base, alts = _role_sequences(view, x, at, role_of)
                 if role not in POINT_ROLES + ('lons',):
                     continue
                 for parts in alts:
@@ -328,7 +404,7 @@ def rule_split_points(ctx, m):
                                if not elems else f'`{desc}` inserts {len(elems)} points', line=r.lineno)
                         continue
                     katoms = index_param(view, [(rest, base)] + ([(elems, base)] if role != 'lons' else []))
-                    if len(katoms) != 1 or not katoms <= set(sp.params):
+                    if len(katoms) != 1 or not katoms <= index_params():
                         ctx.undecided('C05-R1', sp, tag, f'`{desc}` is not cut at one index parameter ({sorted(map(str, katoms))})')
                     k = next(iter(katoms))
                     if part == 'first':
@@ -681,6 +757,23 @@ def rule_outputs(ctx, m):
     pend.flush()
 
 
+def _unbroadcast(e):
+    """`e` without added axes: x[:, None], x[:, np.newaxis], x[None, :], np.expand_dims(x, ..), x.reshape(-1, 1)"""
+    for _ in range(4):
+        if isinstance(e, ast.Subscript):
+            parts = e.slice.elts if isinstance(e.slice, ast.Tuple) else [e.slice]
+            if all((isinstance(p, ast.Slice) and p.lower is None and p.upper is None and p.step is None) or
+                   (isinstance(p, ast.Constant) and p.value is None) or norm(p) == 'np.newaxis' for p in parts):
+                e = e.value
+                continue
+        b = pm_any(['np.expand_dims(X_, axis=A_)', 'np.expand_dims(X_, A_)', 'X_.reshape(-1, 1)', 'X_.reshape(1, -1)', 'np.atleast_2d(X_)'], e)
+        if b is not None:
+            e = b['X_']
+            continue
+        break
+    return e
+
+
 def rule_guards(ctx, m):
     """C05-R7: every guarded division of the module is guarded exactly on its denominator (by value: a mask held in a
     local, built by a helper or written inline is the same mask)."""
@@ -711,6 +804,14 @@ def rule_guards(ctx, m):
                 if nm.endswith('where'):
                     continue
                 pend.put('C05-R7', fi, norm(c)[:60], (None, 'guarded division not recognised'))
+                continue
+            # a division guarded against an INFINITE denominator (the slope of a segment of constant latitude) is another
+            # kind of guard than the zero test this rule is about: the values it yields are decided by R11
+            fin = pm_any(['~np.isinf(X_)', 'np.isfinite(X_)', 'X_ != np.inf', 'np.abs(X_) != np.inf', 'np.abs(X_) < np.inf'], _unbroadcast(b['W_']))
+            if fin is not None and same(_unbroadcast(fin['X_']), _unbroadcast(b['D_'])):
+                ctx.ob('C05-R7', fi, f'np.divide(…, {show(b["D_"], 40)}, where={show(b["W_"], 50)})', True,
+                       'guarded on the finiteness of the denominator (not a zero test): the quotients are decided by R11', line=c.lineno,
+                       nontrivial=False)
                 continue
             ndiv += 1
             nline += fi.qualname == 'calculate_line_parameters' or fi.qualname == HZ_FN
@@ -1358,6 +1459,8 @@ class Mirror:
     def __init__(self, fi, coords):
         self.params = set(fi.params)
         self.pinv = {coords[0]: coords[1], coords[1]: coords[0]}
+        self.coords = tuple(coords)
+        self.exempt = []
         self.pair = {}
         self.ren, self.rev = {}, {}
         self.where = []
@@ -1437,12 +1540,62 @@ class Mirror:
             return ('asym', 'a different expression of the same quantities', a, b)
         return d
 
+    _STRUCTURAL = {'np.column_stack', 'np.hstack', 'np.vstack', 'np.dstack', 'np.stack', 'np.concatenate', 'np.sort', 'np.argsort', 'np.unique',
+                   'np.searchsorted', 'np.digitize', 'np.cumsum', 'np.delete', 'np.insert', 'np.append', 'np.diff', 'np.sum', 'np.all', 'np.any',
+                   'np.count_nonzero', 'np.max', 'np.min', 'np.argmax', 'np.argmin', 'np.nonzero', 'np.flatnonzero'}
+
+    def line_valued(self, e):
+        """`e` is one number per crossing, computed element-wise from BOTH received coordinates (through the parameters of
+        the line through the way-points): it solves lon = slope * lat + intercept for one or the other coordinate, and its
+        counterpart solves it for the other - no mirror images by nature.  Arrays that are assembled (stacked, sorted,
+        negated in place, reduced) are not such values, nor are boolean masks."""
+        if e is None or is_mask(e) or not isinstance(e, ast.expr):
+            return False
+        direct = set()
+        for x in self._value_nodes(e):
+            if isinstance(x, ast.Name) and x.id in self.coords:
+                direct.add(x.id)
+            if isinstance(x, ast.Call):
+                if any(is_mk(x, mk) for mk in (NEG, SORT, METH, FOR)) or (call_name(x) in self._STRUCTURAL and not self._is_coord_diff(x)):
+                    return False
+        return direct == set(self.coords)
+
+    @staticmethod
+    def _value_nodes(e):
+        """the nodes of `e` that make up the VALUES of its elements: what selects elements (subscript indices, the condition
+        of np.where, where=, the index of an in-place store, the test an alteration is made under) is left out"""
+        stack = [e]
+        while stack:
+            x = stack.pop()
+            yield x
+            if isinstance(x, ast.Subscript):
+                stack.append(x.value)
+            elif isinstance(x, ast.Call) and call_name(x) == 'np.where' and len(x.args) == 3:
+                stack += x.args[1:]
+            elif is_mk(x, SET) or is_mk(x, IFS):
+                stack += x.args[1:]
+            elif is_mk(x, SETAUG):
+                stack += x.args[2:]
+            elif isinstance(x, ast.Call):
+                stack += [x.func] + list(x.args) + [k.value for k in x.keywords if k.arg != 'where']
+            else:
+                stack += list(ast.iter_child_nodes(x))
+
+    def _is_coord_diff(self, c):
+        return call_name(c) == 'np.diff' and len(c.args) == 1 and isinstance(c.args[0], ast.Name) and c.args[0].id in self.coords
+
     def diff(self, a, b):
         nm = getattr(b, '_nm', None)
         if nm:
             self.where.append(nm)
         try:
+            snap = self._snap()
             d = self._diff(a, b)
+            if d is not None and self.line_valued(a) and self.line_valued(b):
+                self._restore(snap)
+                if not any(x is a for x, _ in self.exempt):
+                    self.exempt.append((a, b))
+                return None
             if d is not None and len(d) == 4:
                 d = d + (' → '.join(self.where[-4:]) if self.where else None,)
             return d
@@ -1478,6 +1631,10 @@ class Mirror:
                         a, b)
             self.pair[ka], self.pair[kb] = kb, ka
             return None
+        if is_mk(a, STEPS) != is_mk(b, STEPS):
+            # an array that is altered in place on one side only: the value bound, then no steps
+            A, B = (a.args if is_mk(a, STEPS) else [a]), (b.args if is_mk(b, STEPS) else [b])
+            return self.diff(A[0], B[0]) or self.steps(A[1:], B[1:], f'`{getattr(b, "_nm", None) or show(B[0], 40)}`')
         ca, cb = const_value(a), const_value(b)
         if ca is not None and cb is not None and not isinstance(ca, (str, bytes)) and not isinstance(cb, (str, bytes)):
             return None if ca == cb and isinstance(ca, bool) == isinstance(cb, bool) else \
@@ -1749,12 +1906,501 @@ def rule_mirror(ctx, m):
             if d is None:
                 d = M.steps(A['steps'], B['steps'], what_b, values)
             pend.put('C05-R6', hz, f'per-axis array {A["name"]} ↔ {B["name"]}', verdict(d, what_a, what_b), line=line_of(d, B['line']))
+    seen_ex = set()
+    for a, b in M.exempt:
+        k = (_describe(a, 50), _describe(b, 50))
+        if k not in seen_ex:
+            seen_ex.add(k)
+            ctx.ob('C05-R6', hz, f'{k[0]} ↔ {k[1]}', True, 'computed element-wise from both coordinates (the line through the way-points): '
+                   'no mirror images by nature, not compared (see R11)', line=getattr(b, 'lineno', ret.lineno), nontrivial=False)
     ctx.rules_run.setdefault('C05-R6/fills', {})['found'] = nfill
     ctx.floor('C05-R6', n, 2, 'latitude / longitude pairs of returned arrays')
     # positive control: an exchanged coordinate is recognised
     ca, cb = (canon(ast.parse(t, mode='eval').body) for t in (f'np.sign(np.diff({coords[0]})) == -1', f'np.sign(np.diff({coords[0]})) == -1'))
     dctl = Mirror(hz, coords).diff(ca, cb)
     ctx.control('C05-R6', dctl is not None and dctl[0] == 'asym', 'embedded one-sided use of a coordinate is recognised as an asymmetry')
+    pend.flush()
+
+
+# ---------------------------------------------------------------------------------------------------------------
+# R11.  The value of one element of an element-wise built array, on one KIND of segment, computed exactly (rationals;
+# ±inf / nan as numpy has them).  A kind of segment is a sample of way-points: `oblique` (latitude and longitude both
+# change) and `parallel` (constant latitude: Δlat = 0).  What the arrays of the program hold for that segment follows
+# from the program itself - the line parameters are opened like any helper, so the slope of a parallel segment is
+# whatever the default of the guarded division is - only the leaves are given: way-point i / i + 1 of the two
+# received coordinates, a grid line of either axis.  Selections that depend on the kind of segment (a mask that
+# evaluates: np.isinf(slope), Δlat == 0, ...) are applied; selections that do not (rows of one index change, column
+# ranges, np.newaxis) leave the element's value alone.  Forms outside the list raise _NoVal (exit 2).
+# ---------------------------------------------------------------------------------------------------------------
+class _NoVal(Exception):
+    pass
+
+
+class _Absent(Exception):
+    """the element is not selected on this kind of segment"""
+
+
+_UNINIT = object()
+_INF, _NAN = float('inf'), float('nan')
+_TRANSPARENT = {'np.expand_dims', 'np.squeeze', 'np.asarray', 'np.asanyarray', 'np.array', 'np.ascontiguousarray', 'np.copy', 'np.atleast_1d',
+                'np.atleast_2d', 'np.broadcast_to', 'np.reshape', 'np.tile', 'np.repeat', 'np.transpose', 'float', 'np.float64'}
+_TRANSPARENT_METHODS = {'copy', 'reshape', 'astype', 'squeeze', 'transpose', 'view'}
+_FINITENESS = ('np.isinf', 'np.isfinite', 'np.isnan', 'np.isposinf', 'np.isneginf')
+
+
+def _arith(op, a, b):
+    from fractions import Fraction
+    if a is _UNINIT or b is _UNINIT or isinstance(a, bool) or isinstance(b, bool):
+        raise _NoVal('arithmetic on a value that is not a number')
+    if not isinstance(a, float) and not isinstance(b, float):
+        if isinstance(op, ast.Div):
+            if b == 0:
+                return _NAN if a == 0 else (_INF if a > 0 else -_INF)
+            return a / b
+        if isinstance(op, ast.Add):
+            return a + b
+        if isinstance(op, ast.Sub):
+            return a - b
+        if isinstance(op, ast.Mult):
+            return a * b
+        if isinstance(op, ast.Pow) and b.denominator == 1 and abs(b) <= 8 and (a != 0 or b > 0):
+            return a ** int(b)
+        raise _NoVal(f'operator {type(op).__name__}')
+    x, y = float(a), float(b)
+    if isinstance(op, ast.Div):
+        r = (_NAN if (x == 0 or x != x) else (_INF if x > 0 else -_INF)) if y == 0 else x / y
+    elif isinstance(op, ast.Add):
+        r = x + y
+    elif isinstance(op, ast.Sub):
+        r = x - y
+    elif isinstance(op, ast.Mult):
+        r = x * y
+    else:
+        raise _NoVal(f'operator {type(op).__name__}')
+    if r != r or r in (_INF, -_INF):
+        return r
+    if r == 0:
+        return Fraction(0)          # x / ±inf
+    raise _NoVal('finite result of non-finite operands')
+
+
+class RowEval:
+    def __init__(self, S, coords, env):
+        self.S = S
+        self.lat, self.lon = coords
+        self.env = env              # LAT0 DLAT LON0 DLON XLINE YLINE
+        self.prev = []
+
+    def waypoint(self, e):
+        """value of `coords[:-1]` / `coords[1:]` / np.diff(coords) (also with np.newaxis), else None"""
+        if isinstance(e, ast.Call) and call_name(e) == 'np.diff' and len(e.args) == 1 and not e.keywords and isinstance(e.args[0], ast.Name):
+            return {self.lat: self.env['DLAT'], self.lon: self.env['DLON']}.get(e.args[0].id)
+        if not (isinstance(e, ast.Subscript) and isinstance(e.value, ast.Name) and e.value.id in (self.lat, self.lon)):
+            return None
+        parts = e.slice.elts if isinstance(e.slice, ast.Tuple) else [e.slice]
+        sl = [p for p in parts if isinstance(p, ast.Slice)]
+        rest = [p for p in parts if not isinstance(p, ast.Slice)]
+        if len(sl) != 1 or any(not (const_value(p) is None and isinstance(p, ast.Constant)) and norm(p) != 'np.newaxis' for p in rest) or sl[0].step is not None:
+            return None
+        lo, hi = sl[0].lower, sl[0].upper
+        base, d = (self.env['LAT0'], self.env['DLAT']) if e.value.id == self.lat else (self.env['LON0'], self.env['DLON'])
+        if lo is None and hi is not None and const_value(hi) == -1:
+            return base
+        if hi is None and lo is not None and const_value(lo) == 1:
+            return base + d
+        return None
+
+    @staticmethod
+    def _tests_finiteness(p):
+        return mentions(p, lambda x: (isinstance(x, ast.Call) and call_name(x) in _FINITENESS) or
+                        (isinstance(x, ast.Attribute) and norm(x) in ('np.inf', 'math.inf', 'np.nan', 'math.nan')))
+
+    def selects(self, idx):
+        """True / False: the index selects / drops the element by the kind of its segment; None: it does not depend on it"""
+        parts = idx.elts if isinstance(idx, ast.Tuple) else [idx]
+        out = None
+        for p in parts:
+            if isinstance(p, ast.Slice) or isinstance(p, ast.Constant) or norm(p) == 'np.newaxis':
+                continue
+            try:
+                v = self.ev(p)
+            except (_NoVal, _Absent):
+                if self._tests_finiteness(p):
+                    raise _NoVal(f'the selection `{show(p, 50)}` tests finiteness of a value that is not followed')
+                continue
+            if isinstance(v, bool):
+                if not v:
+                    return False
+                out = True
+        return out
+
+    def ev(self, e):
+        from fractions import Fraction
+        w = self.waypoint(e)
+        if w is not None:
+            return w
+        if isinstance(e, ast.Constant):
+            if isinstance(e.value, bool):
+                return e.value
+            if isinstance(e.value, (int, float)):
+                return Fraction(e.value) if e.value == e.value and e.value not in (_INF, -_INF) else float(e.value)
+            raise _NoVal(f'constant {e.value!r}')
+        if isinstance(e, ast.Name):
+            if e.id == PREV and self.prev:
+                return self.force(self.prev[-1])
+            raise _NoVal(f'`{e.id}` is not a value of one segment')
+        if isinstance(e, ast.Attribute):
+            t = norm(e)
+            if t in ('np.inf', 'math.inf'):
+                return _INF
+            if t in ('np.nan', 'math.nan'):
+                return _NAN
+            if t == 'self.grid_latitudes':
+                return self.env['YLINE']
+            if t == 'self.grid_longitudes':
+                return self.env['XLINE']
+            if e.attr == 'T':
+                return self.ev(e.value)
+            raise _NoVal(f'`{t[:40]}`')
+        if isinstance(e, ast.Subscript):
+            if self.selects(e.slice) is False:
+                raise _Absent
+            return self.ev(e.value)
+        if isinstance(e, ast.UnaryOp):
+            v = self.ev(e.operand)
+            if isinstance(e.op, (ast.Invert, ast.Not)):
+                if not isinstance(v, bool):
+                    raise _NoVal('~ of a number')
+                return not v
+            if isinstance(v, bool) or v is _UNINIT:
+                raise _NoVal('sign of a value that is not a number')
+            return -v if isinstance(e.op, ast.USub) else v
+        if isinstance(e, ast.BinOp):
+            a, b = self.ev(e.left), self.ev(e.right)
+            if isinstance(e.op, (ast.BitAnd, ast.BitOr, ast.BitXor)):
+                if not (isinstance(a, bool) and isinstance(b, bool)):
+                    raise _NoVal('& | ^ of numbers')
+                return (a and b) if isinstance(e.op, ast.BitAnd) else (a or b) if isinstance(e.op, ast.BitOr) else (a != b)
+            return _arith(e.op, a, b)
+        if isinstance(e, ast.BoolOp):
+            vals = [self.ev(x) for x in e.values]
+            if not all(isinstance(x, bool) for x in vals):
+                raise _NoVal('and / or of numbers')
+            return all(vals) if isinstance(e.op, ast.And) else any(vals)
+        if isinstance(e, ast.Compare):
+            ops = {ast.Eq: lambda a, b: a == b, ast.NotEq: lambda a, b: a != b, ast.Lt: lambda a, b: a < b, ast.LtE: lambda a, b: a <= b,
+                   ast.Gt: lambda a, b: a > b, ast.GtE: lambda a, b: a >= b}
+            left = self.ev(e.left)
+            for op, c in zip(e.ops, e.comparators):
+                right = self.ev(c)
+                if type(op) not in ops or left is _UNINIT or right is _UNINIT or isinstance(left, bool) != isinstance(right, bool):
+                    raise _NoVal('comparison')
+                if not ops[type(op)](left, right):
+                    return False
+                left = right
+            return True
+        if isinstance(e, ast.IfExp):
+            try:
+                t = self.ev(e.test)
+            except _NoVal:
+                a, b = self.ev(e.body), self.ev(e.orelse)
+                if a == b:
+                    return a
+                raise
+            if not isinstance(t, bool):
+                raise _NoVal('condition that is a number')
+            return self.ev(e.body if t else e.orelse)
+        if isinstance(e, ast.Call):
+            return self.call(e)
+        raise _NoVal(f'`{show(e, 40)}` ({type(e).__name__})')
+
+    def force(self, v):
+        return self.ev(v[1]) if isinstance(v, tuple) and v and v[0] == 'lazy' else v
+
+    def call(self, e):
+        from fractions import Fraction
+        nm = call_name(e)
+        kw = {k.arg: k.value for k in e.keywords}
+        if is_mk(e, STEPS):
+            return self.force(self.steps(('lazy', e.args[0]), e.args[1:]))
+        if is_mk(e, LFILL):
+            info = self.S.fills[e.args[0].value]
+            vals = []
+            if pm_any(['np.full(S_, np.nan)', 'np.full(S_, np.nan, dtype=T_)', 'np.empty(S_)', 'np.empty(S_, dtype=T_)'], info['base']) is None:
+                vals.append(self.ev(info['base']))
+            for st in info['steps']:
+                while is_mk(st, FOR) or is_mk(st, IFS):
+                    st = st.args[2] if is_mk(st, FOR) else st.args[1]      # where / when a crossing is written: not the element's value
+                if not is_mk(st, SET):
+                    raise _NoVal(f'`{info["name"]}` is filled by `{show(st, 40)}`')
+                try:
+                    if self.selects(st.args[0]) is not False:
+                        vals.append(self.ev(st.args[1]))
+                except _Absent:
+                    pass
+            if not vals:
+                raise _Absent
+            if any(v != vals[0] and not (v != v and vals[0] != vals[0]) for v in vals[1:]):
+                raise _NoVal(f'`{info["name"]}` is written with different values')
+            return vals[0]
+        if is_mk(e, 'ALT__'):
+            vals = [self.ev(x) for x in e.args]
+            if any(v != vals[0] for v in vals[1:]):
+                raise _NoVal('alternatives with different values')
+            return vals[0]
+        if nm in _TRANSPARENT and e.args:
+            return self.ev(e.args[0])
+        if isinstance(e.func, ast.Attribute) and e.func.attr in _TRANSPARENT_METHODS and not nm.startswith(('np.', 'math.')):
+            if e.func.attr == 'astype' and not (e.args and show(e.args[0]) in ('float', 'np.float64', "'float64'", 'np.double')):
+                raise _NoVal('cast')
+            return self.ev(e.func.value)
+        two = {'np.multiply': ast.Mult, 'np.add': ast.Add, 'np.subtract': ast.Sub}
+        if nm in two and len(e.args) == 2 and not kw:
+            return _arith(two[nm](), self.ev(e.args[0]), self.ev(e.args[1]))
+        if nm in ('np.divide', 'np.true_divide') and len(e.args) == 2 and set(kw) <= {'out', 'where'}:
+            w = self.ev(kw['where']) if 'where' in kw else True
+            if not isinstance(w, bool):
+                raise _NoVal('where= that is a number')
+            if w:
+                return _arith(ast.Div(), self.ev(e.args[0]), self.ev(e.args[1]))
+            return self.ev(kw['out']) if 'out' in kw else _UNINIT
+        if nm == 'np.negative' and len(e.args) == 1:
+            return _arith(ast.Sub(), Fraction(0), self.ev(e.args[0]))
+        if nm == 'np.where' and len(e.args) == 3 and not kw:
+            try:
+                c = self.ev(e.args[0])
+            except _NoVal:
+                # a condition that does not depend on the kind of segment (which columns of a row hold a crossing): the
+                # element where it exists is the arm that is not the NaN padding
+                if self._tests_finiteness(e.args[0]):
+                    raise
+                arms = []
+                for a in e.args[1:]:
+                    try:
+                        arms.append(self.ev(a))
+                    except _Absent:
+                        pass
+                real = [v for v in arms if v == v]
+                if len(real) == 1 or (real and all(v == real[0] for v in real)):
+                    return real[0]
+                raise
+            if not isinstance(c, bool):
+                raise _NoVal('np.where on a number')
+            return self.ev(e.args[1] if c else e.args[2])
+        if nm in _FINITENESS and len(e.args) == 1:
+            v = self.ev(e.args[0])
+            if v is _UNINIT or isinstance(v, bool):
+                raise _NoVal('finiteness of a value that is not a number')
+            return {'np.isinf': v in (_INF, -_INF), 'np.isfinite': not isinstance(v, float), 'np.isnan': v != v,
+                    'np.isposinf': v == _INF, 'np.isneginf': v == -_INF}[nm]
+        if nm == 'np.abs' and len(e.args) == 1:
+            v = self.ev(e.args[0])
+            if v is _UNINIT or isinstance(v, bool):
+                raise _NoVal('abs')
+            return abs(v)
+        if nm == 'np.sign' and len(e.args) == 1:
+            v = self.ev(e.args[0])
+            if v is _UNINIT or isinstance(v, bool):
+                raise _NoVal('sign')
+            return v if v != v else Fraction((v > 0) - (v < 0))
+        if nm in ('np.full', 'np.full_like') and len(e.args) >= 2:
+            return self.ev(e.args[1])
+        if nm in ('np.zeros', 'np.zeros_like') and e.args:
+            return Fraction(0)
+        if nm in ('np.ones', 'np.ones_like') and e.args:
+            return Fraction(1)
+        if nm in ('np.empty', 'np.empty_like') and e.args:
+            return _UNINIT
+        if nm == 'np.nan_to_num' and len(e.args) == 1 and set(kw) <= {'nan', 'posinf', 'neginf', 'copy'}:
+            v = self.ev(e.args[0])
+            if v != v:
+                return self.ev(kw['nan']) if 'nan' in kw else Fraction(0)
+            if v in (_INF, -_INF):
+                k = 'posinf' if v > 0 else 'neginf'
+                if k not in kw:
+                    raise _NoVal('nan_to_num of an infinite value')
+                return self.ev(kw[k])
+            return v
+        raise _NoVal(f'`{show(e, 50)}` is not an element-wise form that is followed')
+
+    def steps(self, cur, steps):
+        for st in steps:
+            go = True
+            while is_mk(st, IFS):
+                t = self.ev(st.args[0])
+                if not isinstance(t, bool):
+                    raise _NoVal('condition that is a number')
+                go = go and t
+                st = st.args[1]
+            if not go:
+                continue
+            if is_mk(st, SET) or is_mk(st, SETAUG):
+                idx = st.args[0]
+                sel = self.selects(idx)
+                if sel is False:
+                    continue
+                whole = (isinstance(idx, ast.Slice) and idx.lower is None and idx.upper is None) or (isinstance(idx, ast.Constant) and idx.value is Ellipsis)
+                if sel is None and not whole:
+                    raise _NoVal(f'some elements are overwritten at `[{show(idx, 40)}]`, which does not depend on the kind of segment')
+                self.prev.append(cur)
+                try:
+                    if is_mk(st, SET):
+                        cur = self.ev(st.args[1])
+                    else:
+                        op = getattr(ast, st.args[1].value, None)
+                        if op is None:
+                            raise _NoVal('augmented assignment')
+                        cur = _arith(op(), self.force(cur), self.ev(st.args[2]))
+                finally:
+                    self.prev.pop()
+            elif is_mk(st, AUG):
+                op = getattr(ast, st.args[0].value, None)
+                if op is None:
+                    raise _NoVal('augmented assignment')
+                self.prev.append(cur)
+                try:
+                    cur = _arith(op(), self.force(cur), self.ev(st.args[1]))
+                finally:
+                    self.prev.pop()
+            else:
+                raise _NoVal(f'`{show(st, 40)}` reorders / rewrites the array as a whole')
+        return cur
+
+
+def _segment_samples():
+    """[(kind, env)]: exact sample segments; the grid lines are free numbers (an identity of rational functions does not
+    care whether the line is between the way-points)"""
+    from fractions import Fraction as F
+    return [('oblique', dict(LAT0=F(3, 10), DLAT=F(1, 20), LON0=F(11, 10), DLON=F(-1, 5), XLINE=F(21, 20), YLINE=F(8, 25))),
+            ('oblique', dict(LAT0=F(-7, 9), DLAT=F(-2, 13), LON0=F(-5, 17), DLON=F(-3, 11), XLINE=F(-4, 9), YLINE=F(-5, 6))),
+            ('oblique', dict(LAT0=F(2, 7), DLAT=F(3, 19), LON0=F(-13, 8), DLON=F(5, 23), XLINE=F(-3, 2), YLINE=F(1, 3))),
+            ('parallel', dict(LAT0=F(3, 10), DLAT=F(0), LON0=F(11, 10), DLON=F(-1, 5), XLINE=F(21, 20), YLINE=F(8, 25))),
+            ('parallel', dict(LAT0=F(-7, 9), DLAT=F(0), LON0=F(-5, 17), DLON=F(3, 11), XLINE=F(-4, 9), YLINE=F(-5, 6))),
+            # along the equator: slope * latitude is inf * 0, the intercept is NaN and not infinite
+            ('parallel', dict(LAT0=F(0), DLAT=F(0), LON0=F(2, 3), DLON=F(1, 7), XLINE=F(5, 7), YLINE=F(1, 9)))]
+
+
+def _num_text(v):
+    if v is _UNINIT:
+        return 'an uninitialised value'
+    if isinstance(v, float):
+        return 'NaN' if v != v else ('+inf' if v > 0 else '-inf')
+    return str(v)
+
+
+def rule_on_line(ctx, m):
+    """C05-R11: every intersection coordinate the horizontal intersection orders along a segment is a point of that
+    segment's straight map line: the columns stacked into the latitude-side array are latitude grid lines or the
+    latitude at which the line through (lat_i, lon_i), (lat_i+1, lon_i+1) meets a longitude grid line, and the other way
+    round - decided by computing the element exactly on sample segments, the line parameters opened like any helper.
+    A segment of constant latitude has no finite slope (the guarded division of the line parameters leaves its default):
+    where it crosses a longitude line the latitude must come out as the latitude of its way-points, not as the
+    quotient of two infinities."""
+    V = grid_values(ctx)
+    S = grid_states(ctx)
+    hz = m.func(HZ_FN)
+    coords = [p for p in hz.params if p not in ('self', 'cls')]
+    if len(coords) != 2:
+        ctx.undecided('C05-R11', hz, 'parameters', f'the horizontal intersection receives {coords}, not two coordinate arrays')
+    pend = Pending(ctx)
+    n = 0
+    samples = _segment_samples()
+    for role, name, val, ret in hz_leaves(ctx, m, 'C05-R11'):
+        if role not in ('lat coordinate', 'lon coordinate'):
+            continue
+        axis = role.split()[0]
+        if is_mk(val, MUT):
+            val = canon(V.plain_of(val))
+        b = pm_any(['np.column_stack((C_[:-1], P_, C_[1:]))', 'np.hstack((C_[:-1, None], P_, C_[1:, None]))',
+                    'np.concatenate((C_[:-1, None], P_, C_[1:, None]), axis=1)'], val)
+        if b is None:
+            pend.put('C05-R11', hz, f'returned {role} array', (None, f'`{show(val, 90)}` is not [way-point | intersection points | next way-point]'))
+            continue
+        try:
+            state = S.expand(b['P_'])
+        except Undecided as e:
+            pend.put('C05-R11', hz, f'{axis} intersection coordinates', (None, str(e)))
+            continue
+        # the outermost stacks on the value path of the array (what selects elements - indices, masks - is not part of it)
+        joins, todo = {}, [state]
+        while todo:
+            x = todo.pop()
+            bj = pm_any(['np.column_stack(T_)', 'np.hstack(T_)', 'np.concatenate(T_, axis=1)', 'np.concatenate(T_, axis=-1)'], x) \
+                if isinstance(x, ast.Call) else None
+            if bj is not None and isinstance(bj['T_'], ast.Tuple) and len(bj['T_'].elts) >= 2:
+                joins.setdefault(ast.dump(x), bj['T_'].elts)
+                continue
+            if isinstance(x, ast.Subscript):
+                todo.append(x.value)
+            elif is_mk(x, STEPS):
+                todo.append(x.args[0])
+                todo += [st.args[1] for st in x.args[1:] if is_mk(st, SET)]
+            elif isinstance(x, ast.Call):
+                todo += list(x.args) + [k.value for k in x.keywords if k.arg != 'where']
+            else:
+                todo += [y for y in ast.iter_child_nodes(x) if isinstance(y, ast.expr)]
+        if len(joins) != 1:
+            pend.put('C05-R11', hz, f'{axis} intersection coordinates',
+                     (None, f'{len(joins)} arrays are stacked into the intersection coordinates (expected one stack of [grid lines | crossings of the other axis\' lines])'))
+            continue
+        own, other = ('YLINE', 'XLINE') if axis == 'lat' else ('XLINE', 'YLINE')
+        for op in next(iter(joins.values())):
+            n += 1
+            what = f'{axis} intersection coordinates: column block {_describe(op, 50)}'
+            kindof, verdict = None, None
+            for kind, env in samples:
+                on_line = env['LAT0'] + (env['XLINE'] - env['LON0']) * env['DLAT'] / env['DLON'] if axis == 'lat' else \
+                    (env['LON0'] + (env['YLINE'] - env['LAT0']) * env['DLON'] / env['DLAT'] if env['DLAT'] != 0 else None)
+                if kind == 'parallel' and (kindof != 'crossing' or axis != 'lat'):
+                    continue        # a segment of constant latitude crosses no latitude line; its own lines are what they are
+                try:
+                    v = RowEval(S, coords, env).ev(op)
+                except _Absent:
+                    continue
+                except _NoVal as e:
+                    verdict = (None, f'value of an element on {"an" if kind == "oblique" else "a"} {kind} segment not computed: {e}')
+                    break
+                except (Undecided, KeyError, RecursionError, ZeroDivisionError, OverflowError) as e:
+                    verdict = (None, f'value of an element not computed: {type(e).__name__} {e}')
+                    break
+                if kind == 'oblique':
+                    k2 = 'line' if v == env[own] else 'crossing' if v == on_line else None
+                    if k2 is None or (kindof is not None and k2 != kindof):
+                        oth = 'longitude' if axis == 'lat' else 'latitude'
+                        ax_ = 'latitude' if axis == 'lat' else 'longitude'
+                        verdict = (False, (f'`{_describe(op, 70)}` is neither a {ax_} grid line nor the {ax_} at which the segment\'s straight map line '
+                                           f'meets a {oth} grid line: for the way-points ({env["LAT0"]}, {env["LON0"]}) → ({env["LAT0"] + env["DLAT"]}, '
+                                           f'{env["LON0"] + env["DLON"]}) and the {oth} line {env[other]} it is {_num_text(v)}, the point of the line '
+                                           f'there has {ax_} {on_line}: the crossing point is not on the path, pieces are cut at the wrong place '
+                                           'and attributed to cells the path does not cross'))
+                        break
+                    kindof = k2
+                else:
+                    if v != env['LAT0']:
+                        lost = v is _UNINIT or isinstance(v, float)
+                        verdict = (False, (f'on a segment of constant latitude (no finite slope / intercept: the guarded division of the line '
+                                           f'parameters leaves its default there) the latitude at which it crosses a longitude grid line, '
+                                           f'`{_describe(op, 70)}`, comes out as {_num_text(v)} (way-points at latitude {env["LAT0"]}, longitudes '
+                                           f'{env["LON0"]} → {env["LON0"] + env["DLON"]}), not as the latitude of its way-points: ' +
+                                           ('the crossing has a longitude but no latitude, the latitude-side arrays hold fewer entries than the '
+                                            'longitude-side ones and the returned cell / altitude / time / state arrays no longer line up' if lost else
+                                            'the crossing point is not on the path, the pieces of an east-west leg are attributed to cells it does '
+                                            'not cross')))
+                        break
+            if verdict is None:
+                verdict = (True, {'line': f'{axis} grid lines crossed', 'crossing': 'on the line through the segment\'s way-points'
+                                  + (' (way-point latitude where the latitude is constant)' if axis == 'lat' else '')}.get(kindof, 'not selected on any sample'))
+                if kindof is None:
+                    verdict = (None, 'the element exists on no sample segment')
+            pend.put('C05-R11', hz, what, verdict, line=getattr(op, 'lineno', ret.lineno))
+    ctx.floor('C05-R11', n, 4, 'column blocks of the intersection coordinates (grid lines + crossings, per axis)')
+    # positive control: the unguarded solution of the line equation is NaN on a segment of constant latitude
+    env = samples[-1][1]
+    try:
+        ctl = _arith(ast.Div(), _arith(ast.Sub(), env['XLINE'], -_INF), _INF)
+    except _NoVal:
+        ctl = None
+    ctx.control('C05-R11', ctl is not None and ctl != ctl, 'embedded (line − (−inf)) / inf evaluates to NaN')
     pend.flush()
 
 
@@ -1813,10 +2459,201 @@ def rule_axes(ctx, m):
     pend.flush()
 
 
+# ---------------------------------------------------------------------------------------------------------------
+# Tuple locals taken apart.  `t = (e0, .., en)` bound once, every other use of `t` being `t[k]` (constant k; also as
+# the base of a store `t[k][mask] = v` - the tuple itself cannot be stored into) or a whole load that a display can
+# stand for (return value, element of a display, right-hand side of an unpacking), is the same program as
+# `t_0 = e0; ..; t_n = en` with `t[k]` read as `t_k` and the whole loads as `(t_0, .., t_n)`: a tuple is immutable and
+# has no identity the program looks at.  The values of the module (c04.Values, States) follow a local that holds an
+# array and is altered in place; they do not follow a component of a tuple that is - so a record of arrays whose
+# fields are patched after construction (`cells = Cells(a, b); cells.a[m] = nan`, a record class erased to a display
+# by the loader) is rewritten here, in the functions of the gridding module only, before the rules read them.
+# A component is named after the axis / kind all role-bearing names of its value agree on (a stack of
+# `lat_grid_indices` and `midpoint_lat_indices` is a `lat index` array), else it carries no role and the rules that
+# need one say so (exit 2).
+# ---------------------------------------------------------------------------------------------------------------
+def _reparent(root):
+    for n in ast.walk(root):
+        for ch in ast.iter_child_nodes(n):
+            if not isinstance(ch, (ast.expr_context, ast.operator, ast.unaryop, ast.cmpop, ast.boolop)):
+                ch._parent = n
+
+
+def _component_name(t, k, e, taken):
+    roles = {leaf_role(x.id) for x in ast.walk(e) if isinstance(x, ast.Name)} - {None}
+    if len(roles) == 1:
+        axis, kind = next(iter(roles)).split()
+        nm = f'{axis}_{kind}_part{k}'
+    else:
+        nm = f'{t}_part{k}'
+    while nm in taken:
+        nm += '_'
+    return nm
+
+
+def split_tuple_locals(fn):
+    """rewrite function node `fn` in place (see above); returns the number of tuple locals taken apart"""
+    from ..astutil import parent
+    done = 0
+    for _ in range(8):
+        everything = [x for x in ast.walk(fn) if isinstance(x, ast.Name)]
+        scope = {id(x) for x in walk_no_nested(fn)}
+        params = {a.arg for a in ast.walk(fn.args) if isinstance(a, ast.arg)}
+        taken = {x.id for x in everything} | params
+        declared = {n for x in ast.walk(fn) if isinstance(x, (ast.Global, ast.Nonlocal)) for n in x.names}
+        hit = None
+        for st in walk_no_nested(fn):
+            v = plain_value(st)
+            if not (isinstance(v, ast.Tuple) and v.elts and not any(isinstance(x, ast.Starred) for x in v.elts)):
+                continue
+            t = st.targets[0].id if isinstance(st, ast.Assign) else st.target.id
+            occ = [x for x in everything if x.id == t]
+            if t in params or t in declared or any(id(x) not in scope for x in occ) or any(x.id == t for x in ast.walk(v) if isinstance(x, ast.Name)):
+                continue
+            if sum(1 for x in occ if not isinstance(x.ctx, ast.Load)) != 1:
+                continue
+            reads, wholes, ok = [], [], True
+            for x in occ:
+                if not isinstance(x.ctx, ast.Load):
+                    continue
+                p = parent(x)
+                if isinstance(p, ast.Subscript) and p.value is x and isinstance(p.ctx, ast.Load) and isinstance(const_value(p.slice), int) \
+                        and not isinstance(const_value(p.slice), bool) and -len(v.elts) <= const_value(p.slice) < len(v.elts):
+                    reads.append(p)
+                elif (isinstance(p, ast.Return) and p.value is x) or (isinstance(p, ast.Tuple) and isinstance(p.ctx, ast.Load)) or \
+                        (isinstance(p, ast.For) and p.iter is x) or \
+                        (isinstance(p, ast.Assign) and p.value is x and len(p.targets) == 1 and isinstance(p.targets[0], (ast.Tuple, ast.List))
+                         and len(p.targets[0].elts) == len(v.elts) and not any(isinstance(y, ast.Starred) for y in p.targets[0].elts)):
+                    wholes.append(x)
+                else:
+                    ok = False
+                    break
+            body = next((b for f in ('body', 'orelse', 'finalbody') for b in [getattr(parent(st), f, None)]
+                         if isinstance(b, list) and any(s is st for s in b)), None)
+            if ok and (reads or any(isinstance(parent(x), ast.For) for x in wholes)) and body is not None:
+                hit = (st, t, v, reads, wholes, body)
+                break
+        if hit is None:
+            break
+        st, t, v, reads, wholes, body = hit
+        names, new = [], []
+        for k, e in enumerate(v.elts):
+            # a component that is a local bound once (and no parameter) stands for itself
+            if isinstance(e, ast.Name) and e.id not in params and e.id not in declared and \
+                    sum(1 for x in everything if x.id == e.id and not isinstance(x.ctx, ast.Load)) == 1:
+                names.append(e.id)
+                continue
+            nm = _component_name(t, k, e, taken | set(names))
+            names.append(nm)
+            a = ast.Assign(targets=[ast.Name(id=nm, ctx=ast.Store())], value=e, type_comment=None)
+            ast.copy_location(a, st)
+            ast.copy_location(a.targets[0], st)
+            new.append(a)
+        i = next(i for i, s in enumerate(body) if s is st)
+        body[i:i + 1] = new or [ast.copy_location(ast.Pass(), st)]
+        for sub in reads:
+            nm = names[const_value(sub.slice) % len(names)]
+            sub.__class__ = ast.Name
+            del sub.value, sub.slice
+            sub.id, sub.ctx = nm, ast.Load()
+        for x in wholes:
+            x.__class__ = ast.Tuple
+            del x.id
+            x.elts = [ast.copy_location(ast.Name(id=nm, ctx=ast.Load()), x) for nm in names]
+            x.ctx = ast.Load()
+        _reparent(fn)
+        done += 1
+    if done:
+        unroll_name_loops(fn)
+    return done
+
+
+def unroll_name_loops(fn):
+    """`for x in (a, b, ..): body` over a display of plain locals (what a loop over the fields of a record of arrays is
+    once the record is taken apart), x used nowhere else, the body straight-line statements that bind nothing but
+    subscripts / attributes of x: the body once per element, x read as the element."""
+    from ..astutil import parent
+    for loop in [x for x in walk_no_nested(fn) if isinstance(x, ast.For)]:
+        it, tg = loop.iter, loop.target
+        if not (isinstance(tg, ast.Name) and isinstance(it, ast.Tuple) and 1 <= len(it.elts) <= 6 and all(isinstance(e, ast.Name) for e in it.elts)) \
+                or loop.orelse:
+            continue
+        inside = {id(x) for x in ast.walk(loop)}
+        if any(isinstance(x, ast.Name) and x.id == tg.id and id(x) not in inside for x in ast.walk(fn)):
+            continue
+        elts = {e.id for e in it.elts}
+        simple = all(isinstance(st, (ast.Assign, ast.AugAssign, ast.Expr)) for st in loop.body) and not any(
+            isinstance(x, (ast.Break, ast.Continue, ast.Return, ast.Yield, ast.YieldFrom, ast.Await, ast.NamedExpr, ast.Lambda, ast.ListComp,
+                           ast.SetComp, ast.DictComp, ast.GeneratorExp)) for st in loop.body for x in ast.walk(st))
+        stores = [x for st in loop.body for x in ast.walk(st) if isinstance(x, ast.Name) and not isinstance(x.ctx, ast.Load)]
+        if not simple or stores or any(isinstance(x, ast.Name) and x.id in elts and not isinstance(x.ctx, ast.Load) for x in ast.walk(loop)):
+            continue
+        body = next((b for f in ('body', 'orelse', 'finalbody') for b in [getattr(parent(loop), f, None)]
+                     if isinstance(b, list) and any(s is loop for s in b)), None)
+        if body is None:
+            continue
+        new = []
+        for e in it.elts:
+            for st in loop.body:
+                c = tcopy(st)
+                for x in ast.walk(c):
+                    if isinstance(x, ast.Name) and x.id == tg.id:
+                        x.id = e.id
+                new.append(c)
+        i = next(i for i, s in enumerate(body) if s is loop)
+        body[i:i + 1] = new
+        _reparent(fn)
+
+
+class GridValues(Values):
+    """c04.Values with the precision of reaching definitions where a local is bound to (a view of) another local:
+    `a = b` followed by an alteration of `b` leaves `a` opaque only when that alteration can meet the object `a` was bound
+    to, i.e. when it is reached from the binding of `a` on a path that does not REBIND `b` first.  (A helper inlined twice
+    leaves `t = alloc(); fill t; first = t; t = alloc(); fill t; second = t`: the second filling alters another object.)"""
+
+    def _rebinds(self, view):
+        k = ('kill', id(view.fn))
+        if k not in self._opened:
+            out = {}
+            for node in view.cfg.nodes:
+                kill, _ = view._effects(node)
+                for nm in kill:
+                    out.setdefault(nm, set()).add(node.id)
+            self._opened[k] = out
+        return self._opened[k]
+
+    def _aliased_then_altered(self, view, name, ds, at=None):
+        muts = self._mutations(view)
+        kills = self._rebinds(view)
+        for d in ds:
+            base = self._viewed(plain_value(d, name))
+            if base is None or base == name or not muts.get(base):
+                continue
+            dn = [i for i in view.cfg.nodes_of(d) if view.cfg.nodes[i].kind != 'join']
+            stop = kills.get(base, set())
+            for a in dn:
+                ok_edge = lambda x, y, lab, a=a: lab != 'e' and (x == a or x not in stop)
+                if any(view.cfg.reaches(a, b, edge_ok=ok_edge) for b in muts[base]):
+                    return True
+        through = self._opened[('alias', id(view.fn))].get(name)
+        if through and at is not None:
+            ok_edge = lambda x, y, lab: lab != 'e'
+            own = {i for d in ds for i in view.cfg.nodes_of(d)}
+            an = [i for i in view.cfg.nodes_of(at) if view.cfg.nodes[i].kind != 'join']
+            if any(b not in own and view.cfg.reaches(b, a, edge_ok=ok_edge) for b in through for a in an):
+                return True
+        return False
+
+
 def run(ctx):
     prog = ctx.prog
     m = prog.module(GRID)
+    for fi in m.functions.values():
+        if '<locals>' not in fi.qualname:
+            split_tuple_locals(fi.node)
     fn = m.func(SHARE_FN)
+    if '_grid_values' not in ctx.__dict__:
+        ctx._grid_values = GridValues(ctx.prog, keep=(DIST_FN, 'crosses_dateline', SHARE_FN.split('.')[-1], HZ_FN.split('.')[-1]))
 
     def split_points():
         try:
@@ -1832,6 +2669,7 @@ def run(ctx):
         lambda: rule_direction(ctx, m, 'C05-R5'),
         lambda: rule_mirror(ctx, m),                       # R6
         lambda: rule_guards(ctx, m),                       # R7
+        lambda: rule_on_line(ctx, m),                      # R11
         lambda: rule_axes(ctx, m),                         # R3
         lambda: rule_lookup(ctx, m, 'C05-R8'),
         lambda: rule_forwarding(ctx, m, 'C05-R9', ('lats', 'lons', 'altitudes', 'times', 'state_variables', 'integrated_variables'),
